@@ -452,6 +452,14 @@ func (e *Engine) lvalueKinds(vc *VC, fn *ssa.Function, a SExpr, names map[string
 				return true
 			}
 		}
+		if id, isId := c.Fun.(*SIdent); isId && id.Name == "mapall" && len(c.Args) == 1 {
+			// the contents of a map: its domain, value and length arrays
+			if mt, isM := e.staticTypeOf(fn, c.Args[0]).Underlying().(*types.Map); isM {
+				dn, vn, _, _ := vc.mapNames(mt)
+				names[dn], names[vn], names["ML"] = true, true, true
+				return true
+			}
+		}
 		return false
 	}
 	ty := e.staticTypeOf(fn, a)
